@@ -108,7 +108,7 @@ def signers_conform(sources, twin):
 
 
 framescan('C17/every-signer-calls-its-library-as-PKCS1v15-over-a-prehashed-SHA1-digest', ['C17'], signers_conform,
-          'call conformance of the three signers to the (assumed) library contracts for RSASSA-PKCS1-v1_5 over a pre-hashed SHA-1 digest')
+          'call conformance of the three signers to the (assumed) library contracts for RSASSA-PKCS1-v1_5 over a pre-hashed SHA-1 digest', side_condition=True)
 
 
 def _n0inv(z3, SF, V):
